@@ -2,6 +2,7 @@ package replication
 
 import (
 	"fmt"
+	"sync"
 
 	"github.com/pkg/errors"
 	"google.golang.org/grpc"
@@ -20,13 +21,19 @@ type GRPCReplicationServer struct {
 	pb.UnimplementedReplicationServer
 	CertFile    string
 	CertKeyFile string
+	// mu guards StreamChannels and streamDone. The fan-out holds it (shared) while it sends,
+	// so a stream's entry cannot be removed between being picked from the map and the send.
+	mu sync.RWMutex
 	// Key: IPAddr (e.g. "192.125.18.1:25"), Value: channel for messages sent to each gRPC stream
 	StreamChannels map[string]chan []byte
+	// Key: IPAddr, Value: channel closed when the stream's handler stops reading its stream channel
+	streamDone map[string]chan struct{}
 }
 
 func NewGRPCReplicationServer() *GRPCReplicationServer {
 	return &GRPCReplicationServer{
 		StreamChannels: map[string]chan []byte{},
+		streamDone:     map[string]chan struct{}{},
 	}
 }
 
@@ -50,7 +57,11 @@ func (rs *GRPCReplicationServer) GetWALStream(_ *pb.GetWALStreamRequest, stream 
 	log.Info(fmt.Sprintf("new replica connection from:%s", clientAddr))
 
 	streamChannel := make(chan []byte, defaultReplicationStreamChannelSize)
+	done := make(chan struct{})
+	rs.mu.Lock()
 	rs.StreamChannels[clientAddr] = streamChannel
+	rs.streamDone[clientAddr] = done
+	rs.mu.Unlock()
 	verifhook.At("Repl.inserted", clientAddr)
 
 	// infinite loop
@@ -70,11 +81,18 @@ func (rs *GRPCReplicationServer) GetWALStream(_ *pb.GetWALStreamRequest, stream 
 		log.Debug("successfully sent a replication message")
 	}
 
-	// when an error occurred / client connection is closed, close the channel
+	// when an error occurred / client connection is closed, release a fan-out that may be blocked
+	// on this stream's channel and remove the entry. The stream channel itself is never closed:
+	// the fan-out may still hold it, and sending on a closed channel panics.
 	verifhook.At("Repl.beforeDelete", clientAddr)
-	delete(rs.StreamChannels, clientAddr)
+	close(done)
+	rs.mu.Lock()
+	if rs.StreamChannels[clientAddr] == streamChannel {
+		delete(rs.StreamChannels, clientAddr)
+		delete(rs.streamDone, clientAddr)
+	}
+	rs.mu.Unlock()
 	verifhook.At("Repl.deleted", clientAddr)
-	close(streamChannel)
 	verifhook.At("Repl.closed", clientAddr)
 	log.Info(fmt.Sprintf("[master] closed replication connection: %v", clientAddr))
 
@@ -83,10 +101,16 @@ func (rs *GRPCReplicationServer) GetWALStream(_ *pb.GetWALStreamRequest, stream 
 
 func (rs *GRPCReplicationServer) SendReplicationMessage(transactionGroup []byte) {
 	// send a replication message to each replica
+	rs.mu.RLock()
 	for ip, channel := range rs.StreamChannels {
 		log.Debug("sending a replication message to %s", ip)
 		verifhook.At("Repl.fanout.beforeSend", ip)
-		channel <- transactionGroup
+		select {
+		case channel <- transactionGroup:
+		case <-rs.streamDone[ip]:
+			// the replica is gone; its handler removes the entry
+		}
 		verifhook.At("Repl.fanout.sent", ip)
 	}
+	rs.mu.RUnlock()
 }
